@@ -296,6 +296,47 @@ def nan_obj(k):
     return _NAN_OBJ[k]
 
 
+def shared_containers(v):
+    """the list / dict objects that occur at two or more positions of v (outermost ones only)"""
+    seen, dup = {}, []
+
+    def walk(x):
+        if isinstance(x, (list, dict)):
+            if id(x) in seen:
+                if all(q is not x for q in dup):
+                    dup.append(x)
+                return
+            seen[id(x)] = x
+        if isinstance(x, (list, tuple)):
+            for y in x:
+                walk(y)
+        elif isinstance(x, dict):
+            for y in x.values():
+                walk(y)
+    walk(v)
+    return dup
+
+
+def lit_top(v):
+    """lit(v) that also keeps ONE container object occurring at several positions (replay rebuilds the sharing)"""
+    dup = shared_containers(v)
+    if not dup:
+        return lit(v)
+    names = {id(x): "s%d" % i for i, x in enumerate(dup)}
+
+    def go(x):
+        if id(x) in names and isinstance(x, (list, dict)):
+            return names[id(x)]
+        if isinstance(x, list):
+            return "[" + ", ".join(go(y) for y in x) + "]"
+        if isinstance(x, tuple):
+            return "(" + "".join(go(y) + ", " for y in x) + ")"
+        if isinstance(x, dict):
+            return "{" + ", ".join(lit(k) + ": " + go(y) for k, y in x.items()) + "}"
+        return lit(x)
+    return "(lambda %s: %s)(%s)" % (", ".join(names[id(x)] for x in dup), go(v), ", ".join(lit(x) for x in dup))
+
+
 def has_nan_obj(v):
     if isinstance(v, (list, tuple, set, frozenset)):
         return any(has_nan_obj(x) for x in v)
@@ -310,7 +351,7 @@ class Packed(str):
 
 def pack(v):
     """pickling a job for a pool worker loses the identity of float objects; values with nan objects travel as their literal"""
-    return Packed(lit(v)) if has_nan_obj(v) else v
+    return Packed(lit_top(v)) if has_nan_obj(v) else v
 
 
 def unpack(v):
@@ -1274,6 +1315,21 @@ def has_datetime(*vals):
     return any(isinstance(x, datetime.datetime) for v in vals for x in all_atoms_of(v, []))
 
 
+def xset_alias(a, b, sp):
+    """two == set members of different type / representation anywhere in the two inputs (1 / 1.0 / Decimal('1') / Decimal('1.0'),
+    and under use_enum_value a member and its value): the DeepHash memo table of the run, keyed by ==, serves ONE hash text
+    for both (finding K2 = C11-MEMO-SET; the memo is outside the model)"""
+    sm = set_members(a, []) + set_members(b, [])
+    if sp["enum"]:
+        sm = [x.value if isinstance(x, ENUMS) else x for x in sm]
+    nums = [x for x in sm if isinstance(x, (int, float, Decimal)) and not isinstance(x, bool) and x == x]
+    for i, x in enumerate(nums):
+        for y in nums[i + 1:]:
+            if x == y and (type(x) is not type(y) or repr(x) != repr(y)):
+                return True
+    return D.set_alias(a, b)
+
+
 def enum_meets_container(a, b):
     """a str / bytes valued Enum member on one side, a container at the same position on the other (under use_enum_value the code
     iterates the value as a sequence of characters: outside the model)"""
@@ -1351,7 +1407,7 @@ def oracle_case(args):
     fails = []
 
     def case(clause, what):
-        return {"clause": clause, "family": fam, "options": name, "spec": sp, "zip": zip_, "t1": lit(a), "t2": lit(b),
+        return {"clause": clause, "family": fam, "options": name, "spec": sp, "zip": zip_, "t1": lit_top(a), "t2": lit_top(b),
                 "altered": sorted(set("%s@%s" % x for x in log)), "features": features(a, b),
                 "plain": base[0] if base[0] == "raised" else ("empty" if not base[1] else "nonempty"),
                 "plain_exc": base[1] if base[0] == "raised" else None,
@@ -1747,6 +1803,13 @@ def gen_pairs(rng, sp, n, rich):
             a = [rng.choice(pool) for _ in range(rng.randint(3, 6))]
             if rng.random() < 0.5:
                 a = {"k": a}
+        if rng.random() < 0.13:      # ONE container object at two positions of t1 (the model is fed the unfolded tree)
+            try:
+                a2, ok = V.share(rng, a)
+            except Exception:  # noqa
+                ok = False
+            if ok:
+                a = a2
         r = rng.random()
         log = []
         if _NUMX and not _XU and rng.random() < 0.3:
@@ -1785,6 +1848,13 @@ def gen_pairs(rng, sp, n, rich):
                     if k is not None:
                         b = b2
             fam = "rand"
+        if rng.random() < 0.08:      # ... and of t2
+            try:
+                b2, ok = V.share(rng, b)
+            except Exception:  # noqa
+                ok = False
+            if ok and lit(b2) == lit(b):
+                b = b2
         out.append((fam, a, b, log))
     return out
 
@@ -1887,6 +1957,42 @@ def focus_pairs(rng, n):
         b = {q: (a[k] if rng.random() < 0.8 else 2) for k, q in zip(ks, nk)}
         if rng.random() < 0.3:
             a, b = {"outer": [a]}, {"outer": [b]}
+        out.append(("focus:" + "+".join(active(sp)), sp, "rand", a, b, []))
+        # ---- an Enum member facing an equal (or nearly equal) value of ANOTHER type under use_enum_value x a type-ignoring option ----
+        sp = mk(enum=rng.random() < 0.85)
+        r = rng.random()
+        if r < 0.3:
+            sp["numty"] = True
+        elif r < 0.5:
+            sp["strty"] = True
+        elif r < 0.65:
+            sp["sig"] = rng.choice([1, 2, 0])
+        elif r < 0.8:
+            sp["eps"] = rng.choice([0.0, 0.5, 1.0])
+        elif r < 0.9:
+            sp["case"] = True
+        else:
+            sp["numty"] = sp["strty"] = True
+        faces = {E.A: [1, 1.0, True, Decimal("1"), Decimal("1.0"), G.P, 1.2, "1"], E.C: [2.5, Decimal("2.5"), Decimal("2.50"), G.W, 2.4, 2],
+                 G.W: [1.5, Decimal("1.5"), 1, E.C], G.T: [2, 2.0, Decimal("2"), E.A], E.B: ["x", b"x", "X", b"X", E.D, G.Q],
+                 G.Q: ["Ab", b"Ab", "ab", b"ab", G.R, "AB"], G.R: [b"Ab", "Ab", b"ab", G.Q], E.D: ["X", b"X", "x", E.B],
+                 G.S: [None, 0, "None"], G.U: ["nan", NANS[0], b"nan"], G.V: ["a\nb", b"a\nb", "A\nb", 1]}
+        m = rng.choice(list(faces))
+        v = rng.choice(faces[m])
+        x, y = (m, v) if rng.random() < 0.5 else (v, m)
+        shape = rng.choice(["root", "list", "dict", "mixed", "set", "tuple"])
+        if shape == "root":
+            a, b = x, y
+        elif shape == "list":
+            a, b = [1, x, "k"], [1, y, "k"]
+        elif shape == "dict":
+            a, b = {"p": x, "q": [x]}, {"p": y, "q": [y]}
+        elif shape == "mixed":
+            a, b = [[x], {"k": 2}], [[y], {"k": 2}]
+        elif shape == "set":
+            a, b = {x, "z"} if not isinstance(x, float) or x == x else {"z"}, {y, "z"} if not isinstance(y, float) or y == y else {"z"}
+        else:
+            a, b = (x, 0), (y, 0)
         out.append(("focus:" + "+".join(active(sp)), sp, "rand", a, b, []))
     return out
 
@@ -2105,7 +2211,7 @@ def run(ctx):
             if not (in_xuniverse(a) and in_xuniverse(b)):
                 ctx.count("xcorr_skipped:outside_universe")
                 continue
-            if D.set_alias(a, b) and (not sp["numty"] or sp["excl"]):
+            if xset_alias(a, b, sp) and (not sp["numty"] or sp["excl"] or sp["enum"]):
                 ctx.count("xcorr_skipped:set_alias(K2 memo)")
                 continue
             if sp["enum"] and enum_meets_container(a, b):
@@ -2118,6 +2224,9 @@ def run(ctx):
         ojobs.append((a, b, sp, zip_, fam, name, log))
         if not (in_xuniverse(a) and in_xuniverse(b)) or (sp["enum"] and enum_meets_container(a, b)):
             ctx.count("xcorr_skipped:outside_universe")
+            continue
+        if xset_alias(a, b, sp):
+            ctx.count("xcorr_skipped:set_alias(K2 memo)")
             continue
         xjobs.append((a, b, sp, zip_, thr, "focus", name))
     _XU = False
